@@ -1,4 +1,9 @@
 # plan and claim for C15 (X.509 create / parse / verify); J and both are injected by driver/plan.py
+_CFG = ["avx2", "purego"]
+_OB = both("c15.objects", _CFG, shards=(6, 14), floor=1000)
+_CH = both("c15.chains", _CFG, shards=(8, 16), floor=3500)
+_PO = both("c15.pools", _CFG, shards=(4, 8), floor=700)
+_AP = both("c15.apis", _CFG, shards=(2, 4), floor=200)
 PLAN = dict(
     level="exploration",
     rule="c15.objects: one object (handled in 4 cases = parts, each re-creating it from the same template and keys; laws, truncations and "
@@ -11,23 +16,49 @@ PLAN = dict(
          "header, signatureAlgorithm, BIT STRING tag/length) parse+verify must imply unchanged TBS, signature and algorithm; in part 0 the object "
          "is re-issued (next serial / CRL number / subject, fresh randomness; at most 128 times) until the low 3 bits of the last signature octet "
          "are clear and the unused-bits octet additionally takes every value 1..7. c15.chains: one case = one "
-         "generated PKI (a base chain of depth 0..3 changed by one of 21 recipes (cycle of 29: 8 slots mix 2-3 recipes), plus noise) built three times (SM2 keys, "
+         "generated PKI (a base chain of depth 0..3 changed by one of 23 recipes (cycle of 31: 8 slots mix 2-3 recipes), plus noise) built three times (SM2 keys, "
          "mixed key types, ECDSA twin through crypto/x509) and queried at 4+ explicit verification times x key-usage sets per target. "
+         "Two recipes (parallel-versions, parallel-versions-eku) give one or two CAs of the chain one or two further certificates for the same name and key "
+         "(re-issued, cross-signed by a further root, second self-signed root, trusted version of an intermediate) so that a target has 2..9 candidate chains, "
+         "every version with a rule of its own (EKU list, path length, validity, names, explicit key identifier, name constraint); one topology in five of any recipe "
+         "gets EKU lists on all certificates; requested usages then have 2-3 entries in several orders (7 sets) two times in three, so that the EKU nesting rule is "
+         "decided per returned chain where candidates differ. Every query may set the other VerifyOptions fields: Intermediates nil, DNSName (matching / non-matching host "
+         "names and IPs derived from the target's SANs: case, trailing period, wildcard of one label, suffix and prefix extensions, brackets, the common name), "
+         "MaxConstraintComparisions at, below and above the largest number of comparisons any chain of the target can need (the bound is never a reason for the model "
+         "to refuse a returned chain; a chain is demanded only when the bound cannot be reached; the verdict under a tight bound is compared with crypto/x509). The pools "
+         "are built once per instance and reused by all queries three times in four; after every Verify the caller's KeyUsages must be unchanged and the returned slices are overwritten. "
+         "Names under constraints include quoted-string mailboxes and URIs without a fully qualified host (IP literal, no authority). "
+         "c15.pools: one case = one history of 4..8 CertPool objects over a generated PKI (same recipes; plus a same-subject CA with an unrelated key and a leaf of its own, "
+         "0..9 filler CAs, one time in three a cluster of 4..6 same-subject CAs): a base pool filled one certificate at a time or by PEM bundles, clones of it and clones of "
+         "clones extended separately through AddCert / AppendCertsFromPEM (1-3 blocks, blocks to skip in between, buffer overwritten afterwards) / AddCertWithConstraint "
+         "(4 kinds of constraint), duplicate and empty additions, interleaved with Verify calls; at the end every pool serves as Roots for every target (Intermediates: "
+         "the intended pool, the same pool, another pool or nil; roles exchanged). Each pool has a model (certificates added, constraint per entry) that is the ground truth "
+         "of the Verify verdicts (link-by-link soundness, completeness) and of Subjects (multiset) and Equal (all pairs, nil). "
+         "c15.apis: one case = one issuer (key kinds cycle) with 1-3 certificates: CheckSignatureWithDigest (digest computed without the library, Z_A from the reference SM3; "
+         "altered digest bits within the part ECDSA uses, altered TBS, altered signature, wrong length, other key, SM3 without Z_A), the older CRL interface "
+         "(CreateCRL -> ParseDERCRL / ParseCRL DER+PEM -> fields, CheckCRLSignature, also through ParseRevocationList; 40 alterations of signed portion and signature; other key), "
+         "ParseCertificates / ParseCertificatePEM / ParseCertificateRequestPEM (round trip, truncated last element, wrong block types), MarshalCSRResponse -> ParseCSRResponse "
+         "with 1-3 signing certificates, with and without enveloped encryption key and 1-2 encryption certificates (other signing key must be refused), subject keys given as "
+         "crypto/ecdh P-256/P-384/P-521 and gmsm/ecdh SM2 keys, Verify on Certificate values without Raw. "
          "Structured key material (SM2 and P-256 keys whose public X and/or Y has one or two leading zero bytes, or whose scalar has; fixed "
          "scalars re-validated at child start against the reference curve) is used by object number, not by chance: every second certificate "
          "subject key, every second SM2/P-256 signer (issuer, CSR, self-signed) key, the temporary key of 6 of every 7 SM2 CFCA requests (each class "
          ">= 3 times per quick run) and one key of every third topology. c15.sha1: the object workload restricted to SHA-1 signature algorithms, run with GODEBUG=x509sha1=1 only. "
          "distinct = class keys (configuration | object kind / signer / algorithm / subject key / CA / constraints, or recipe / depth / "
-         "number of certificates / outcome pattern); no case is marked trivial",
-    jobs=both("c15.objects", ["avx2", "purego"], shards=(6, 14), floor=1000)
-         + both("c15.chains", ["avx2", "purego"], shards=(6, 14), floor=3500)
-         + [J("c15.sha1", configs=["sha1ok"], variant="asm", shards=(1, 2), floor=120)],
+         "number of certificates / outcome pattern, or pools / instance keys / recipe / number of pools / fillers, or apis / signer / algorithm / leaves); no case is marked trivial",
+    # the purego children take about twice as long as the others: they are started first
+    jobs=[_CH[1], _OB[1], _CH[0], _OB[0], _PO[1], _PO[0], _AP[1], _AP[0],
+          J("c15.sha1", configs=["sha1ok"], variant="asm", shards=(1, 2), floor=120)],
     assumptions=["crypto/x509, encoding/asn1, math/big of the toolchain are trusted (twin instance, independent parse of non-SM2 objects)",
                  "harness/ref/ec + harness/ref/sm3 (self-tested against GB/T 32918.5 / GB/T 32905 examples) are the independent SM2-SM3 verifier",
                  "the ground-truth model is RFC 5280 path validation restricted to the generated features; where Verify is documented to be "
                  "stricter than RFC 5280 (self-issued certificates count for path length / name constraints) soundness uses the RFC rule and "
                  "completeness the stricter one; rfc822Name/URI host constraints on which the two readings differ are executed but not judged",
-                 "ParseRevocationList ignores bytes after the outer SEQUENCE (as crypto/x509 does): observed and counted, not judged"],
+                 "ParseRevocationList ignores bytes after the outer SEQUENCE (as crypto/x509 does): observed and counted, not judged",
+                 "constraints of AddCertWithConstraint are documented for chains rooted in the entry: for entries of the pool given as Intermediates the model only uses "
+                 "them when it demands a chain, never to refuse a returned one; the constraint rules do not depend on whether the entry itself is part of the argument",
+                 "Verify giving up after its documented budget of 100 signature checks is recorded as inconclusive (possible where many same-subject CAs share a pool)",
+                 "not driven: Roots nil (system pool / platform verifier), CurrentTime zero (wall clock), X25519 subject keys (refused by CreateCertificate as by crypto/x509)"],
 )
 
 CLAIM = dict(
@@ -37,11 +68,15 @@ CLAIM = dict(
          "substitution (4 values), truncation and trailing-data extension of its DER is required to fail parsing or verification - unconditionally inside the signed portion and the signatureValue content (incl. the "
          "unused-bits octet, values 1..7), elsewhere unless TBS, signature and algorithm are unchanged; substituted and unauthorised issuer certificates are required to be refused. Every chain "
          "returned by Verify on generated PKIs is checked link by link against the generator's ground truth (signing edges, windows, CA/key "
-         "usage, path length, name constraints, EKU nesting, unknown critical extensions), Verify must succeed whenever the ground truth has "
-         "a valid chain, verdict and chain set must be independent of the key types and equal to crypto/x509's on an ECDSA twin. "
+         "usage, path length, name constraints, EKU nesting, unknown critical extensions, host name when DNSName is set, membership of the pools given as Roots and Intermediates), "
+         "also where a target has several candidate chains with differing rules and several requested usages, Verify must succeed whenever the ground truth has "
+         "a valid chain, verdict and chain set must be independent of the key types and equal to crypto/x509's on an ECDSA twin (including Intermediates nil, DNSName and "
+         "MaxConstraintComparisions). CertPool objects with histories (clones extended separately, PEM bundles, constrained entries, duplicates, reuse over many Verify calls and in "
+         "both roles) must behave as the list of certificates added to each of them: a chain never ends in a certificate that was not added to the very pool given as Roots. "
+         "CheckSignatureWithDigest, the older CRL interface, the multi-certificate / PEM parsers and the GM/T 0092 response round-trip obey the same creation / alteration / key-substitution laws. "
          "Exploration: sampled templates and topologies, exhaustive only over the single-byte substitutions of each sampled object (a quarter of the offsets for P-384 issuers).",
     design_ref="DESIGN.md 6 (C15)",
     note="trusted: crypto/x509 + encoding/asn1 of the toolchain, harness/ref/ec, harness/ref/sm3, the PKI model in harness/wl/c15/chains.go; "
          "SHA-1 algorithms only in workload c15.sha1 (configuration sha1ok)",
-    technique="field/signature laws + exhaustive single-byte alteration sweep + ground-truth PKI model + metamorphic/stdlib differential",
+    technique="field/signature laws + exhaustive single-byte alteration sweep + ground-truth PKI model + pool history models + metamorphic/stdlib differential",
 )
